@@ -166,6 +166,41 @@ theorem mem_sortKeys (l : List String) (y : String) : y ∈ sortKeys l ↔ y ∈
     show y ∈ insertS a (sortKeys as) ↔ _
     rw [mem_insertS, ih]; simp
 
+/-- **`isSub` is the substring relation**: `key in notes` of the code -/
+theorem isSub_iff (pat s : List Char) : isSub pat s = true ↔ ∃ pre post, s = pre ++ pat ++ post := by
+  induction s with
+  | nil =>
+    simp only [isSub]
+    constructor
+    · intro h
+      have : pat = [] := by
+        cases pat with
+        | nil => rfl
+        | cons a as => simp [List.isPrefixOf] at h
+      exact ⟨[], [], by simp [this]⟩
+    · rintro ⟨pre, post, h⟩
+      have : pat = [] := by
+        have := congrArg List.length h
+        simp only [List.length_nil, List.length_append] at this
+        exact List.eq_nil_of_length_eq_zero (by omega)
+      simp [this]
+  | cons c cs ih =>
+    simp only [isSub, Bool.or_eq_true, ih]
+    constructor
+    · rintro (h | ⟨pre, post, h⟩)
+      · obtain ⟨t, ht⟩ := List.isPrefixOf_iff_prefix.1 h
+        exact ⟨[], t, by simp [ht]⟩
+      · exact ⟨c :: pre, post, by simp [h]⟩
+    · rintro ⟨pre, post, h⟩
+      cases pre with
+      | nil =>
+        left
+        exact List.isPrefixOf_iff_prefix.2 ⟨post, by simpa using h.symm⟩
+      | cons a pre' =>
+        right
+        simp only [List.cons_append, List.cons.injEq] at h
+        exact ⟨pre', post, h.2⟩
+
 /-- **notes are returned as stored when they mention no reference key, and otherwise followed by
 the banner and the text of exactly the mentioned keys** -/
 theorem processNotes_spec (notes : String) (keys : List String) (refText : String → String) :
